@@ -111,7 +111,7 @@ def gen_tokens(rng, cfg, size, allow_undef=True):
                 toks.append({"t": "icall"})
                 delay()
             elif k < 0.89 and fam in ("x64", "ia32"):
-                toks.append({"t": "icallm", "to": rng.choice(ref_targets)})
+                toks.append({"t": rng.choice(["icallm", "ijmpm"]), "to": rng.choice(ref_targets)})
             elif k < 0.91 and fam == "mips":
                 toks.append({"t": "b", "to": rng.choice(labels)})
                 delay()
@@ -139,6 +139,10 @@ def gen_tokens(rng, cfg, size, allow_undef=True):
                     tok["got"] = True
                 elif v < 0.6 and fam in ("arm64", "mips"):
                     tok["lo12"] = True
+                    if rng.random() < 0.5:
+                        tok["addend"] = rng.choice([4, 8])
+                elif v < 0.7 and fam == "mips":
+                    tok["addend"] = rng.choice([4, 8])      # %hi(sym+n)
                 toks.append(tok)
         else:
             k = rng.random()
